@@ -10,6 +10,7 @@ REALS = ("ValueType is modelled by exact reals (type R): every 'equals its defin
          "the size and growth of IEEE rounding error is NOT decided by this check")
 
 UNITS = {
+    "mean_abs_dev": dict(tpl="mean_abs_dev.rs.tpl", doc="methods::{MeanAbsDev, CCI}"),
     "simple_window": dict(tpl="simple_window.rs.tpl", doc="methods::{Momentum, Derivative, RateOfChange, Past, Integral}"),
     "sma": dict(tpl="sma.rs.tpl", doc="methods::SMA"),
     "window": dict(tpl="window.rs.tpl", doc="core::Window<T>, WindowIterator, ReversedWindowIterator: every fn under contract"),
